@@ -341,6 +341,11 @@ def gen(seed, idx, tier, ctx):
                 it['wplan']['tty'] = True      # stdout is a terminal
             if src == 'stdin' and rng.random() < 0.3:
                 it['rplan']['tty'] = True      # stdin is a terminal
+            if src == 'stdin' and rng.random() < 0.3:
+                # the encoding the interpreter set sys.stdin up with
+                # (PYTHONIOENCODING / locale) is not the input's
+                it['stdin_env_enc'] = rng.choice(['latin-1', 'cp1252',
+                                                  'ascii', 'utf-16'])
             if src == 'file' and dst == 'file' and rng.random() < 0.25:
                 # format a file in place: -o names the input file itself,
                 # possibly under another spelling of its path
@@ -514,7 +519,10 @@ def run_cli_item(item, text, ref, stat, viols, ii, want_bytes=False):
         stdin = iofake.make_stdin(b'', {}, iofake.Chan())
     else:
         stdin = iofake.make_stdin(data, item.get('rplan') or {}, chan,
-                                  'utf-8', item.get('buf'))
+                                  item.get('stdin_env_enc') or 'utf-8',
+                                  item.get('buf'))
+        if item.get('stdin_env_enc'):
+            stat('cli_stdin_environment_encoding_differs')
         argv.append('-')
     wplan = dict(item.get('wplan') or {})
     if 'fail_frac' in wplan:
